@@ -44,45 +44,15 @@ void collect_symbols(const expression_t& e, std::vector<symbol_t>& out)
 }
 
 // reference substitution, on the rendering
+// reference substitution: the rendering of e in which every identifier bound to s is replaced by repl
+// (one renderer for both sides of the comparison, harness/dump.cpp; DOT member decorations off because they are
+// derived from the operand's type, which a substitution may change)
 std::string ref_subst(const expression_t& e, const symbol_t& s, const std::string& repl, const SexprOpts& o)
 {
-    if (e.empty())
-        return "()";
-    if (e.get_kind() == IDENTIFIER && expr_symbol_raw(e) == s)
-        return repl;
-    size_t n = expr_stored_children(e);
-    if (n == 0)
-        return sexpr(e, o);
-    // render this node with children replaced: take the node's own rendering without children
-    expression_t shallow = e.clone();
-    std::string head = sexpr(e, o);
-    // rebuild: "(HEAD child...)" -> compute head token by rendering children and cutting them off is fragile;
-    // instead render each child and assemble using the same format as dump.cpp
-    std::string r = "(";
-    r += kind_name(e.get_kind());
-    int32_t iv;
-    double dv;
-    std::string sv;
-    int yv;
-    int k = e.get_kind();
-    if (k == DOT || k == VAR_INDEX) {
-        if (expr_value_int(e, iv))
-            r += ":" + std::to_string(iv);
-    } else if (k == SYNC) {
-        if (expr_value_sync(e, yv))
-            r += ":" + std::to_string(yv);
-    } else if (k != CONSTANT && k != IDENTIFIER) {
-        if (expr_value_int(e, iv)) {
-            if (iv != 0)
-                r += ":v" + std::to_string(iv);
-        } else if (expr_value_double(e, dv))
-            r += ":d" + hexdouble(dv);
-    }
-    if (k != IDENTIFIER && expr_has_symbol(e))
-        r += " @" + expr_symbol_raw(e).get_name();
-    for (size_t i = 0; i < n; ++i)
-        r += " " + ref_subst(*expr_child(e, i), s, repl, o);
-    return r + ")";
+    SexprOpts o2 = o;
+    o2.subst_sym = &s;
+    o2.subst_text = &repl;
+    return sexpr(e, o2);
 }
 
 void all_nodes(expression_t& e, std::vector<std::vector<size_t>>& paths, std::vector<size_t>& cur)
@@ -271,10 +241,12 @@ json expr_laws(Document& doc, expression_t e)
             expression_t r = e.subst(s, repl);
             if (sexpr(e, o) != before)
                 fail("subst-mutates-original:" + s.get_name());
-            std::string exp = ref_subst(e, s, repl_s, o);
-            std::string got = sexpr(r, o);
+            SexprOpts os = o;
+            os.dot_members = false;
+            std::string exp = ref_subst(e, s, repl_s, os);
+            std::string got = sexpr(r, os);
             if (got != exp)
-                fail("subst-wrong-result:" + kroot + ":" + s.get_name());
+                fail("subst-wrong-result:" + kroot + ":" + s.get_name() + (getenv("UTAPV_DEBUG") ? " exp=" + exp + " got=" + got : std::string()));
             expression_t idr = e.subst(s, expression_t::create_identifier(s));
             ++checks;
             if (!idr.equal(e) || !e.equal(idr))
